@@ -416,7 +416,10 @@ func calibrate() (maxWellFormed uint64, budget uint64, detail map[string]uint64)
 		}{{"S1", big1, func() any { return new(S1) }}, {"S2", big2, func() any { return new(S2) }}} {
 			st.ctl = ctl{src: src, newDst: v.mk}
 			if _, _, err := st.send(src, v.val); err != nil || st.obs.calls != 1 || st.obs.err != nil {
-				core.Fatal("calibration request was not served: %s err=%v bind=%v", src, err, st.obs.err)
+				// not fatal: on a tree where this carrier is broken the round-trip part reports it as a violation;
+				// the calibration simply has no sample for it
+				detail[src.String()+"/"+v.name+"/not-served"] = 1
+				continue
 			}
 			wire := append([]byte(nil), st.wire...)
 			var worst uint64
@@ -425,7 +428,8 @@ func calibrate() (maxWellFormed uint64, budget uint64, detail map[string]uint64)
 				res := st.runRaw(st.ctl, wire)
 				d := totalAlloc() - b
 				if res.calls != 1 || res.hasErr {
-					core.Fatal("calibration replay failed: %s %+v", src, res)
+					detail[src.String()+"/"+v.name+"/replay-failed"] = 1
+					break
 				}
 				if i >= 2 && d > worst { // warm pools first
 					worst = d
